@@ -173,6 +173,50 @@ REGISTRY = {
                                           "sympy's own arithmetic/diff/subs is trusted where the library calls it; the sympy->z3 translation is validated at a seeded rational point on every run"],
         timeout_s={"quick": 400, "thorough": 1500},
     ),
+    "C16": dict(
+        jobs=lambda tier, seed: __import__("vf.props.solvers", fromlist=["x"]).configs(tier),
+        job_of_config=lambda cfg: ("vf.props.solvers", cfg.get("_job", "c16_diagonal")),
+        technique="the real solver callables are executed on symbolic right-hand sides (and symbolic energies in the sympy branch); z3 decides residual H0_i V - V H0_j - Y != 0 entrywise "
+        "(V = 0 where energies coincide inside a block)",
+        bounds={
+            "quick": "solve_sylvester_diagonal numpy branch (dyadic real/complex spectra, degenerate levels, zero block, 1-3 blocks of dims 1-3, both orientations and diagonal blocks) and sympy branch "
+            "(symbolic / rational / complex energies, equal symbols -> zoo handling, non-square blocks, zero block)",
+            "thorough": "adds 3|3|1 symbolic and 3|2 numeric spectra",
+        },
+        assumptions=COMMON_ASSUMPTIONS + ["scipy.sparse branch of the diagonal solver, KPM greens_function/rescale and real sparse-LU accuracy are outside (compiled float kernels); see not_applicable notes in DESIGN.md"],
+        timeout_s={"quick": 300, "thorough": 900},
+    ),
+    "C20": dict(
+        jobs=lambda tier, seed: __import__("vf.props.illposed", fromlist=["x"]).configs(tier),
+        job_of_config=lambda cfg: ("vf.props.illposed", "c20_numeric" if cfg.get("numeric") else "c20_symbolic"),
+        technique="each ill-posedness class (H_0 not block diagonal, shared level between coupled blocks, mask on a degenerate pair, asymmetric Hermitian mask, non-(bi)orthonormal eigenvectors, "
+        "non-Hermitian symbolic term, exclusive options) is embedded at every position of the common layouts in an otherwise SYMBOLIC problem and the real code is executed: a listed exception type must be raised "
+        "no later than the first evaluation needing the quantity, and a division by an identically zero symbolic quantity is a violation; "
+        "numeric sub-claim (finiteness / reject-iff-ill-posed incl. scipy.sparse values) by exhaustive enumeration of integer spectra {0,1,2}^N x block assignments x fully_diagonalize variants x dense/sparse",
+        bounds={
+            "quick": "layouts {1|1,1|2,2|1,1|1|1,2|2,1|1|2}, both modes, every block position; numeric domain N<=3 (all 2- and 3-block assignments), orders <=3, plus N=4 sparse masks",
+            "thorough": "numeric domain N<=4",
+        },
+        assumptions=["for a sympy H_0 whose off-diagonal block sympy cannot prove zero the library warns and proceeds by design (counted as not silent)",
+                     "the Hermiticity check of symbolic terms is only claimed for the sympy-matrix/expression input format that documents it",
+                     "the numeric sub-claim is decided by exhaustive concrete enumeration (compiled float kernels are out of reach of a solver); exit code semantics are the same"],
+        timeout_s={"quick": 400, "thorough": 1500},
+    ),
+    "C08": dict(
+        jobs=lambda tier, seed: __import__("vf.props.nof", fromlist=["x"]).configs(tier),
+        job_of_config=_job_of("vf.props.nof", "c08"),
+        technique="operator words over boson / fermion / spin / ladder alphabets are enumerated; the real NumberOrderedForm.from_expr, *, +, -, **, adjoint and as_expr run on them; "
+        "both sides are denoted by one independent evaluator (action on a Fock state with SYMBOLIC boson/ladder occupations and symbolic scalar coefficients, binary occupations case-split, Jordan-Wigner signs) "
+        "and z3 decides action(library result) != action(original word(s)); sat models are replayed in a truncated matrix representation",
+        bounds={
+            "quick": "alphabets: 1 boson (a, a+, N, N+1, a^2, a+^2), 2 bosons, 2 and 3 fermions, spin, ladder, boson+fermion, boson+spin, mixed 5-mode; all words up to length 3-4, every left|right splitting, "
+            "both association orders of 3-way splittings, adjoint, powers 2,3 of words <=2, sums/differences/scalar multiples and both distributive laws over words <=2",
+            "thorough": "words up to length 4-6 (3 fermions: 5, 1 boson: 6)",
+        },
+        assumptions=["occupation numbers of bosons are real n >= 0 (a rational identity valid for all integers is valid identically); states closer to a truncation edge than the word length are outside",
+                     "sympy's own evaluation of products of Pauli / number operators when the word is built is trusted", "z3 `unsat` trusted, first query per job cross-checked by cvc5"],
+        timeout_s={"quick": 400, "thorough": 2400},
+    ),
 }
 
 # Properties not (yet) claimed, each with the reason.  Entries disappear as checks are registered.
